@@ -1,6 +1,17 @@
+#[cfg(not(prometheus_verif))]
 use std::sync::atomic::{AtomicBool, AtomicU64, Ordering};
+#[cfg(not(prometheus_verif))]
 use std::thread;
+#[cfg(not(prometheus_verif))]
 use std::time::{Duration, Instant};
+#[cfg(prometheus_verif)]
+use crate::verif::{
+    sync::atomic::{AtomicBool, AtomicU64, Ordering},
+    thread,
+    time::Instant,
+};
+#[cfg(prometheus_verif)]
+use std::time::Duration;
 
 use lazy_static::lazy_static;
 
@@ -45,12 +56,20 @@ lazy_static! {
 
 const CHECK_UPDATE_INTERVAL: Duration = Duration::from_millis(200);
 
+/// Puts the process-global timer state back to its initial value (verification only).
+#[cfg(prometheus_verif)]
+pub fn verif_reset() {
+    RECENT.store(0, Ordering::Relaxed);
+    UPDATER_IS_RUNNING.store(false, Ordering::SeqCst);
+}
+
 /// Ensures background updater is running, which will call `now_millis` periodically.
 pub fn ensure_updater() {
     if UPDATER_IS_RUNNING
         .compare_exchange(false, true, Ordering::SeqCst, Ordering::SeqCst)
         .is_ok()
     {
+        #[cfg(not(prometheus_verif))]
         std::thread::Builder::new()
             .name("time updater".to_owned())
             .spawn(|| loop {
@@ -58,6 +77,11 @@ pub fn ensure_updater() {
                 now_millis();
             })
             .unwrap();
+        #[cfg(prometheus_verif)]
+        thread::spawn_named("time updater", || loop {
+            thread::sleep(CHECK_UPDATE_INTERVAL);
+            now_millis();
+        });
     }
 }
 
